@@ -31,6 +31,11 @@ pub mod error_handling;
 pub mod init;
 pub mod model;
 mod roller;
+#[cfg(excsn_fibre_verif)]
+pub mod verif {
+  //! Verification hooks (only with `--cfg excsn_fibre_verif`).
+  pub use crate::roller::CustomRoller;
+}
 pub mod subscriber;
 
 #[cfg(debug_assertions)]
